@@ -314,6 +314,11 @@ class CloudWorld(World):
         self.servers = {}
         # recording for the replay on the compiled crate
         self.phases, self.cur, self.racing = [], None, False
+
+        def _pw(m):
+            scn, pred = self.record(m)
+            return {'cloud': {'scenario': scn, 'predicted': pred}}
+        ctx.panic_witness = _pw
         self.client_ids = {}
         I.env['rand_observer'] = self.on_draw
 
